@@ -171,6 +171,10 @@ func (s *Solver) Check(nvars int, widths []uint8) (SatResult, []uint64) {
 		r = Unknown
 	}
 	s.Queries[r]++
+	if s.logf != nil {
+		// verdict of the deciding solver, read back by the solver differential (xcheck.go)
+		s.logf.WriteString("; RESULT " + r.String() + "\n")
+	}
 	if r != Sat || nvars == 0 {
 		return r, nil
 	}
